@@ -69,7 +69,7 @@ func c11Gen(rng *rand.Rand, tier string, w *bufio.Writer) {
 		c++
 	}
 	// lock-order inversion: a delete holding the record guard against a claim holding the beacon lock
-	fmt.Fprintf(w, "case %d forced m\nseed k1 pending -3600\nseed k2 pending -3000\nspawn D del k1\nspawn S shiftexp 10\ngo D\npoll S\n", c)
+	fmt.Fprintf(w, "case %d forced m\nseed k1 pending -3600\nseed k2 pending -3000\nseed k9 keep 0\nspawn D del k1\nspawn S shiftexp 10\ngo D\ngo S\nstate\n", c)
 	c++
 	keys := []string{"k1", "k2", "k3", "k4", "k5"}
 	sts := []string{"pending", "done"}
